@@ -736,10 +736,6 @@ def CanonItems : Items → Prop
   | .cons _ v r => Canon v ∧ CanonItems r
 end
 
-def enumT (kd : Kind) (i : Nat) : Items → List (Key × Val)
-  | .nil => []
-  | .cons k v r => (effKey kd i k, v) :: enumT kd (i + 1) r
-
 theorem enumT_snd (kd : Kind) : (its : Items) → (i : Nat) →
     (enumT kd i its).map Prod.snd = its.toList.map Prod.snd
   | .nil, i => rfl
@@ -1812,6 +1808,285 @@ theorem rebuildItems_keys_sublist (c : Cfg) (hf : FilterVisit c.vf) (p : Path) (
       exact ih.cons_cons _
     · simp only [applyVisit, h, List.map_nil, List.nil_append]
       exact ih.cons _
+
+
+
+/-! ## research: the root's own enter call comes first; members of a research result -/
+
+/-- the trace only grows, and a step never adds an `enter` event in front of existing ones -/
+theorem hstep_trace (c : HCfg) (h : Heap) (root : Obj) (s s' : HSt) (hs : hstep c h root s = some s') :
+    ∃ tr, s'.trace = s.trace ++ tr := by
+  simp only [hstep] at hs
+  split at hs
+  · simp at hs
+  · split at hs
+    · simp at hs
+    · split at hs
+      · injection hs with hs; subst hs; exact ⟨[], by simp⟩
+      · split at hs
+        · injection hs with hs; subst hs; exact ⟨_, rfl⟩
+        · injection hs with hs; subst hs
+          rw [finishItem_trace]; exact ⟨_, by simp [List.append_assoc]; rfl⟩
+    · split at hs
+      · injection hs with hs; subst hs
+        rw [finishItem_trace]; exact ⟨_, by simp [List.append_assoc]; rfl⟩
+      · split at hs
+        · injection hs with hs; subst hs
+          rw [finishItem_trace]; exact ⟨_, rfl⟩
+        · split at hs
+          · injection hs with hs; subst hs
+            rw [finishItem_trace]; exact ⟨_, by simp [List.append_assoc]; rfl⟩
+          · injection hs with hs; subst hs; exact ⟨_, rfl⟩
+
+theorem researchRun_mem {α : Type} (q : Path → Key → α → Option Bool) (reraise : Bool) :
+    (calls : List (Path × Key × α)) → (l : List (Path × α)) → researchRun q reraise calls = some l →
+    ∀ pv ∈ l, ∃ e ∈ calls, q e.1 e.2.1 e.2.2 = some true ∧ pv = (e.1 ++ [e.2.1], e.2.2)
+  | [], l, h, pv, hm => by
+    simp only [researchRun, Option.some.injEq] at h
+    subst h; simp at hm
+  | (p, k, v) :: r, l, h, pv, hm => by
+    simp only [researchRun] at h
+    split at h
+    · split at h
+      · simp at h
+      · obtain ⟨e, he, h1, h2⟩ := researchRun_mem q reraise r l h pv hm
+        exact ⟨e, List.mem_cons_of_mem _ he, h1, h2⟩
+    · obtain ⟨e, he, h1, h2⟩ := researchRun_mem q reraise r l h pv hm
+      exact ⟨e, List.mem_cons_of_mem _ he, h1, h2⟩
+    · rename_i hq
+      cases hr : researchRun q reraise r with
+      | none => simp [hr] at h
+      | some l' =>
+        simp only [hr, Option.map_some, Option.some.injEq] at h
+        subst h
+        simp only [List.mem_cons] at hm
+        rcases hm with hm | hm
+        · exact ⟨(p, k, v), List.mem_cons_self, hq, hm⟩
+        · obtain ⟨e, he, h1, h2⟩ := researchRun_mem q reraise r l' hr pv hm
+          exact ⟨e, List.mem_cons_of_mem _ he, h1, h2⟩
+
+def FirstEnter (root : Obj) (s : HSt) : Prop :=
+  s = hinit root ∨ (enterLog s.trace).take 1 = [([], Atom.none, root)]
+
+theorem FirstEnter_step (c : HCfg) (h : Heap) (root : Obj) (s s' : HSt) (hi : FirstEnter root s)
+    (hs : hstep c h root s = some s') : FirstEnter root s' := by
+  rcases hi with hi | hi
+  · subst hi
+    right
+    simp only [hstep, hinit] at hs
+    cases root with
+    | atom a =>
+      simp only at hs
+      injection hs with hs; subst hs
+      simp [finishItem_trace, enterLog]
+    | ref rid =>
+      simp only [lookup] at hs
+      cases hnd : h[rid]? with
+      | none =>
+        simp only [hnd] at hs
+        injection hs with hs; subst hs
+        simp [finishItem_trace, enterLog]
+      | some nd =>
+        simp only [hnd] at hs
+        injection hs with hs; subst hs
+        simp [enterLog]
+  · right
+    obtain ⟨tr, ht⟩ := hstep_trace c h root s s' hs
+    rw [ht, enterLog_append]
+    cases hx : enterLog s.trace with
+    | nil => simp [hx] at hi
+    | cons a r => simp [hx] at hi ⊢; exact hi
+
+theorem FirstEnter_run (c : HCfg) (h : Heap) (root : Obj) (n : Nat) (s : HSt) (hi : FirstEnter root s) :
+    FirstEnter root (hrun c h root n s) := by
+  induction n generalizing s with
+  | zero => exact hi
+  | succ n ih =>
+    simp only [hrun]
+    cases hs : hstep c h root s with
+    | none => exact hi
+    | some s' => exact ih s' (FirstEnter_step c h root s s' hi hs)
+
+/-- `remap`'s first `enter` call is the root's own, with the empty path and key `None` -/
+theorem first_enter_is_root (c : HCfg) (h : Heap) (root : Obj) :
+    ∀ e ∈ (enterLog (hfinal c h root).trace).take 1, e = ([], Atom.none, root) := by
+  intro e he
+  rcases FirstEnter_run c h root (hbound h) (hinit root) (Or.inl rfl) with hf | hf
+  · unfold hfinal at he; rw [hf] at he; simp [hinit, enterLog] at he
+  · unfold hfinal at he; rw [hf] at he; simpa using he
+
+
+/-! ## custom enter / exit callbacks: the loop computes the recursion -/
+
+
+
+theorem grun_stuck (c : GCfg) (s : GSt) (h : gstep c s = none) (m : Nat) : grun c m s = s := by
+  cases m <;> simp [grun, h]
+
+theorem grun_add (c : GCfg) (a b : Nat) (s : GSt) : grun c (a + b) s = grun c b (grun c a s) := by
+  induction a generalizing s with
+  | zero => simp [grun]
+  | succ n ih =>
+    rw [Nat.succ_add]
+    simp only [grun]
+    cases hs : gstep c s with
+    | none => simp [grun_stuck c s hs]
+    | some s' => simp [ih]
+
+theorem grun_one (c : GCfg) (s s' : GSt) (hs : gstep c s = some s') : grun c 1 s = s' := by
+  simp [grun, hs]
+
+def GSimVal (c : GCfg) (n : Nat) : Prop :=
+  ∀ (p : Path) (k : Key) (v v' : Val) (rest : List GFrame) (pp : Path) (acc : List (Key × Val))
+    (nr : List (Path × List (Key × Val))) (val : Val),
+    gValue c n p k v = some v' →
+    ∃ m, grun c m ⟨.item k v :: rest, p, (pp, acc) :: nr, val, false, false⟩ =
+      ⟨rest, p, (pp, acc ++ applyVisit c.vf p k v') :: nr, v', false, false⟩
+
+def GSimItems (c : GCfg) (n : Nat) : Prop :=
+  ∀ (p : Path) (items its : List (Key × Val)) (rest : List GFrame) (pp : Path) (acc : List (Key × Val))
+    (nr : List (Path × List (Key × Val))) (val : Val),
+    gItems c n p items = some its →
+    ∃ m val', grun c m ⟨gFrames items ++ rest, p, (pp, acc) :: nr, val, false, false⟩ =
+      ⟨rest, p, (pp, acc ++ its) :: nr, val', false, false⟩
+
+theorem gsimItems_succ (c : GCfg) (n : Nat) (hv : GSimVal c n) (hi : GSimItems c n) :
+    GSimItems c (n + 1) := by
+  intro p items its rest pp acc nr val hr
+  cases items with
+  | nil =>
+    simp only [gItems, Option.some.injEq] at hr
+    subst hr
+    exact ⟨0, val, by simp [grun, gFrames]⟩
+  | cons x r =>
+    obtain ⟨k, v⟩ := x
+    simp only [gItems] at hr
+    split at hr
+    · simp at hr
+    · rename_i v' hv'
+      split at hr
+      · simp at hr
+      · rename_i rest' hr'
+        injection hr with hr; subst hr
+        obtain ⟨m1, h1⟩ := hv p k v v' (gFrames r ++ rest) pp acc nr val hv'
+        obtain ⟨m2, val', h2⟩ := hi p r rest' rest pp (acc ++ applyVisit c.vf p k v') nr v' hr'
+        refine ⟨m1 + m2, val', ?_⟩
+        rw [grun_add]
+        simp only [gFrames, List.map_cons, List.cons_append] at h1 ⊢
+        rw [h1]
+        simpa [gFrames, List.append_assoc] using h2
+
+theorem gsimVal_succ (c : GCfg) (n : Nat) (hi : GSimItems c n) : GSimVal c (n + 1) := by
+  intro p k v v' rest pp acc nr val hr
+  simp only [gValue] at hr
+  split at hr
+  · rename_i hen
+    injection hr with hr; subst hr
+    refine ⟨1, ?_⟩
+    apply grun_one
+    simp [gstep, hen]
+  · rename_i np items hen
+    split at hr
+    · simp at hr
+    · rename_i its hits
+      injection hr with hr; subst hr
+      obtain ⟨m2, val', h2⟩ := hi (p ++ [k]) items its (.exit k v np :: rest) p [] ((pp, acc) :: nr) val hits
+      refine ⟨1 + (m2 + 1), ?_⟩
+      have e1 : grun c 1 ⟨.item k v :: rest, p, (pp, acc) :: nr, val, false, false⟩ =
+          ⟨gFrames items ++ (.exit k v np :: rest), p ++ [k], (p, []) :: (pp, acc) :: nr, val, false, false⟩ := by
+        apply grun_one
+        simp [gstep, hen]
+      rw [grun_add, grun_add, e1, h2]
+      apply grun_one
+      simp [gstep]
+
+theorem gsim_all (c : GCfg) (n : Nat) : GSimVal c n ∧ GSimItems c n := by
+  induction n with
+  | zero =>
+    constructor
+    · intro p k v v' rest pp acc nr val hr; simp [gValue] at hr
+    · intro p items its rest pp acc nr val hr; simp [gItems] at hr
+  | succ n ih => exact ⟨gsimVal_succ c n ih.2, gsimItems_succ c n ih.1 ih.2⟩
+
+/-- the loop, run long enough, returns what the recursion returns -/
+theorem gRemap_eq_rec_aux (c : GCfg) (n : Nat) (root : Val) (r : GRes) (hr : gRoot c n root = some r) :
+    ∃ m, ∀ m', m ≤ m' → gRemapIter c m' root = some r := by
+  unfold gRoot at hr
+  split at hr
+  · rename_i hen
+    injection hr with hr; subst hr
+    refine ⟨1, fun m' hm => ?_⟩
+    obtain ⟨d, rfl⟩ := Nat.exists_eq_add_of_le hm
+    have e1 : grun c 1 (ginit root) = ⟨[], [], [], root, false, true⟩ := by
+      apply grun_one; simp [gstep, ginit, hen]
+    simp only [gRemapIter]
+    rw [grun_add, e1, grun_stuck c _ (by simp [gstep])]
+    simp
+  · rename_i np items hen
+    split at hr
+    · simp at hr
+    · rename_i its hits
+      injection hr with hr; subst hr
+      obtain ⟨m2, val', h2⟩ := (gsim_all c n).2 [] items its [.exit .none root np] [] [] [] root hits
+      refine ⟨1 + (m2 + 1), fun m' hm => ?_⟩
+      obtain ⟨d, rfl⟩ := Nat.exists_eq_add_of_le hm
+      have e1 : grun c 1 (ginit root) =
+          ⟨gFrames items ++ [.exit .none root np], [], [([], [])], root, false, false⟩ := by
+        apply grun_one; simp [gstep, ginit, hen]
+      have e3 : grun c (1 + (m2 + 1)) (ginit root) =
+          ⟨[], [], [], c.ex [] .none root np its, false, false⟩ := by
+        rw [grun_add, grun_add, e1, h2]
+        apply grun_one
+        simp [gstep]
+      simp only [gRemapIter]
+      rw [grun_add, e3, grun_stuck c _ (by simp [gstep])]
+      simp
+
+
+theorem vsize_pos : (v : Val) → 1 ≤ vsize v
+  | .leaf _ => by simp [vsize]
+  | .node _ _ => by simp [vsize]; omega
+
+mutual
+theorem gValue_default (vf : VisitFn Val) : (v : Val) → (n : Nat) → (p : Path) → (k : Key) → vsize v ≤ n →
+    gValue (dflt vf) n p k v = some (rebuildChild ⟨vf, defaultExit⟩ p k v)
+  | .leaf a, n, p, k, hn => by
+    cases n with
+    | zero => simp [vsize] at hn
+    | succ m => simp [gValue, dflt, defaultEnterG, rebuildChild]
+  | .node kd its, n, p, k, hn => by
+    cases n with
+    | zero => simp [vsize] at hn
+    | succ m =>
+      simp only [vsize] at hn
+      have := gItems_default vf its m (p ++ [k]) kd 0 (by omega)
+      simp only [dflt] at this
+      simp [gValue, dflt, defaultEnterG, this, rebuildChild, defaultExitG, defaultExit]
+theorem gItems_default (vf : VisitFn Val) : (its : Items) → (n : Nat) → (p : Path) → (kd : Kind) → (i : Nat) →
+    isize its < n → gItems (dflt vf) n p (enumT kd i its) = some (rebuildItems ⟨vf, defaultExit⟩ p kd i its)
+  | .nil, n, p, kd, i, hn => by
+    cases n with
+    | zero => omega
+    | succ m => simp [gItems, enumT, rebuildItems]
+  | .cons k v r, n, p, kd, i, hn => by
+    cases n with
+    | zero => omega
+    | succ m =>
+      simp only [isize] at hn
+      have hv := vsize_pos v
+      have h1 := gValue_default vf v m p (effKey kd i k) (by omega)
+      have h2 := gItems_default vf r m p kd (i + 1) (by omega)
+      simp only [dflt] at h1 h2
+      simp [gItems, enumT, dflt, h1, h2, rebuildItems]
+end
+
+/-- with `default_enter` / `default_exit` plugged in, the generic recursion is the bottom-up
+    rebuild `remapRec` of the main theorems -/
+theorem gRoot_default (vf : VisitFn Val) (kd : Kind) (its : Items) (n : Nat) (hn : isize its < n) :
+    gRoot (dflt vf) n (.node kd its) = some (.ok (remapRec ⟨vf, defaultExit⟩ (.node kd its))) := by
+  have := gItems_default vf its n [] kd 0 hn
+  simp only [dflt] at this
+  simp [gRoot, dflt, defaultEnterG, this, remapRec, defaultExitG, defaultExit]
 
 
 end C08
